@@ -8,15 +8,16 @@ TARGETS = ['pytezos.michelson.types.adt.get_type_layout', 'pytezos.michelson.typ
            'pytezos.contract.entrypoint.ContractEntrypoint.encode/decode']
 STUBS = ['str(int)/int(str) -> opaque decimal token', 'map/set keys are solver-chosen from small concrete universes (Python dict keys must be hashable); all other leaves symbolic']
 BOUNDS = {'quick': 'storage/parameter type shapes of depth <= 3 with named/unnamed/partly named pairs, right combs and nested pairs, duplicate names, unions (incl. enums, unnamed branches), '
-                   'options, list/set/map with int and pair keys; leaf ints unbounded, strings/bytes <= 1, collections <= 2',
+                   'options, list/set/map with int and pair keys, type-annotated (:name) nested pairs, big_maps given by id and by literal at contract level; leaf ints unbounded, strings/bytes <= 1, collections <= 2',
           'thorough': 'collections <= 3, strings <= 2, additional shapes'}
-OUTSIDE = ['option (option _) (None is ambiguous by documentation; reported separately as `documented-ambiguity`)', 'big_map ids, lambdas, tickets']
+OUTSIDE = ['option (option _) (None is ambiguous by documentation; reported separately as `documented-ambiguity`)', 'lambdas, tickets']
 ASSUMPTIONS = ['round trip is judged on Michelson value equality (abstraction of from_python_object(to_python_object(v)) equals abstraction of v)']
 
 SHAPES_Q = [
     'pair (int %a) (nat %b)', 'pair int nat', 'pair (int %a) nat', 'pair (int %a) (nat %b) (string %c)', 'pair (int %a) (pair (nat %b) (string %c))',
     'pair (pair (int %a) (nat %b)) (string %c)', 'pair (pair %inner (int %a) (nat %b)) (string %c)', 'pair (int %a) (nat %a)', 'pair (int %x) (pair (nat %x) (string %y))',
-    'pair (int :t) (nat :u)', 'pair int nat string bytes', 'pair (pair int nat) (pair string bytes)',
+    'pair (int :t) (nat :u)', 'pair (nat %a) (pair :point (nat %x) (nat %y))', 'pair (pair :p int nat) (string %c)', 'pair (pair :p (int %a) (nat %b)) (pair :q (string %c) (bytes %d))',
+    'or (pair :l (int %a) (nat %b)) (nat %r)', 'pair :storage (int %a) (pair :inner nat string)', 'pair int nat string bytes', 'pair (pair int nat) (pair string bytes)',
     'or (int %a) (nat %b)', 'or (unit %on) (unit %off)', 'or (or (unit %a) (unit %b)) (unit %c)', 'or (or (int %a) (nat %b)) (string %c)',
     'or (or (nat %deposit) (nat %withdraw)) (or (unit %pause) (unit %resume))', 'or int nat', 'or (int %a) nat',
     'option int', 'option (pair (int %a) (nat %b))', 'pair (option %o int) (or %u (int %l) (string %r))',
@@ -289,6 +290,57 @@ PARAM_TYPES = ['or (int %a) (nat %b)', 'or (or (int %a) (pair %b (nat %x) (strin
                'pair %main (int %a) (nat %b)', 'or (or %inner (int %a) (nat %b)) (string %c)', 'nat']
 
 
+BIGMAP_TYPES = ['big_map nat string', 'pair (big_map %ledger nat string) (nat %total)', 'pair (nat %a) (pair (big_map %m string int) (big_map %n int bytes))',
+                'or (big_map %l nat nat) (nat %r)', 'option (big_map nat nat)']
+
+
+def _bigmap_obj(ty_text, ident, lit, n):
+    """Python object of the storage type with big_maps given by id (`ident`) or by a literal dict (`lit`)."""
+    bm = ident if lit is None else lit
+    return {'big_map nat string': bm,
+            'pair (big_map %ledger nat string) (nat %total)': {'ledger': bm, 'total': n},
+            'pair (nat %a) (pair (big_map %m string int) (big_map %n int bytes))': {'a': n, 'm': bm if lit is None else {}, 'n': (ident + 1 if lit is None else {})},
+            'or (big_map %l nat nat) (nat %r)': {'l': bm if lit is None else {}},
+            'option (big_map nat nat)': bm if lit is None else {}}[ty_text]
+
+
+def _bigmap_roundtrip(P, ident, n, check, fail):
+    from pytezos.context.impl import ExecutionContext
+    from pytezos.contract.data import ContractData
+
+    ty = mich.T(P['type'])
+    lit = None
+    if P['form'] == 'literal':
+        lit = {1: 'a', 5: ''} if P['type'].startswith('big_map') or 'ledger' in P['type'] else {}
+    o = _bigmap_obj(P['type'], ident, lit, n)
+    for mode in ('readable', 'optimized'):
+        cd = ContractData(ExecutionContext(mode=mode), ty.from_python_object(o))
+        try:
+            enc = cd.encode(o)
+            o2 = cd.decode(enc)
+        except Exception as e:  # noqa
+            fail(f'ContractData.decode(encode(obj)) failed in {mode} mode: {type(e).__name__}: {e}')
+            return
+        check(pyeq(o2, o), f'ContractData.decode(encode(obj)) == obj for a big_map given by {P["form"]} ({mode})')
+
+
+def sym_bigmap(P, ex):
+    ident, n = ex.int('big_map_id'), ex.int('n')
+    ex.assume((ident >= 0) & (n >= 0))
+    import pytezos.michelson.types.big_map as t_bm
+    from vf import bvx
+
+    with mbv.env(), bvx.shadowed(t_bm):
+        _bigmap_roundtrip(P, ident, n, lambda c, label: ex.check(c, label), lambda m: ex.fail_here(m))
+        ex.check(True)
+
+
+def conc_bigmap(P, w):
+    problems = []
+    _bigmap_roundtrip(P, int(w.get('big_map_id', 0)), int(w.get('n', 0)), lambda c, label: (None if c else problems.append(label)), problems.append)
+    return {'ok': not problems, 'observed': problems[:3]}
+
+
 def obligations(tier):
     q = tier == 'quick'
     t = 120 if q else 900
@@ -297,6 +349,10 @@ def obligations(tier):
     for s in SHAPES_Q + ([] if q else SHAPES_T):
         obs.append(Ob(f'type/{s}', 'bvx', sym_shape, conc_shape, {'type': s, 'maxlen': maxlen, 'maxcoll': maxcoll}, timeout=t,
                       bounds=f'all values: ints unbounded, strings/bytes <= {maxlen}, collections <= {maxcoll} (keys from small concrete universes)', targets=TARGETS))
+    for s in BIGMAP_TYPES:
+        for form in ('id', 'literal'):
+            obs.append(Ob(f'big_map-by-{form}/{s}', 'bvx', sym_bigmap, conc_bigmap, {'type': s, 'form': form}, timeout=t,
+                          bounds='big_map given by a symbolic non-negative id / by a literal dict; other leaves symbolic', targets=TARGETS))
     for s in PARAM_TYPES:
         obs.append(Ob(f'entrypoint/{s}', 'bvx', sym_entrypoint, conc_entrypoint, {'type': s}, timeout=t,
                       bounds='every listed entrypoint (solver-chosen), symbolic argument', targets=TARGETS))
